@@ -105,7 +105,7 @@ Lemma skel_StartSyncWithLeader_ok : skel_StartSyncWithLeader =
 Proof. reflexivity. Qed.
 
 
-(* S7 (fixed by 7335a72): every accumulator the loop appends to is truncated after a batch has been sent *)
+(* S7 (fixed by 4d83d3b): every accumulator the loop appends to is truncated after a batch has been sent *)
 Lemma full_sync_all_truncated :
   forall x, In x full_sync_appended -> In x full_sync_truncated.
 Proof. intros x H. cbn in *. tauto. Qed.
